@@ -154,3 +154,126 @@ def run_cases(ctx, rule_id, cases):
                 ctx.violation(rule_id, "transforms", stage, name, loc, f"{name}: the stage `{stage}` {why_not} — {why}")
             break  # closed inputs give one path; further paths come from irrelevant unknowns
     return n
+
+
+# ---------------------------------------------------------------------- closure under earlier stages
+def _fresh_paths(root):
+    """paths (tuples of arg keys / list indices) to the nodes of a product that the producing stage constructed"""
+    out, seen = [], set()
+
+    def walk(v, path):
+        if id(v) in seen:
+            return
+        seen.add(id(v))
+        if isinstance(v, NodeV):
+            if getattr(v, "fresh", False):
+                out.append(path)
+            for k, x in v.args.items():
+                if ":" not in k:
+                    walk(x, path + (k,))
+        elif isinstance(v, (Lst, Tup)):
+            for i, x in enumerate(v.items):
+                walk(x, path + (i,))
+
+    walk(root, ())
+    return out
+
+
+def _at(root, path):
+    v = root
+    for k in path:
+        v = v.items[k] if isinstance(k, int) else v.args[k]
+    return v
+
+
+def _same_shape(a, b, depth=0) -> bool:
+    """structural equality of two abstract values (a stage that rebuilds an identical node changes nothing)"""
+    if a is b:
+        return True
+    if depth > 6 or type(a) is not type(b):
+        return False
+    if isinstance(a, NodeV):
+        ka = {k for k, v in a.args.items() if ":" not in k and not (isinstance(v, Const) and v.v in (None, False))}
+        kb = {k for k, v in b.args.items() if ":" not in k and not (isinstance(v, Const) and v.v in (None, False))}
+        return a.cls == b.cls and ka == kb and all(_same_shape(a.args[k], b.args[k], depth + 1) for k in ka)
+    if isinstance(a, Const):
+        return a.v == b.v
+    if isinstance(a, (Lst, Tup)):
+        return len(a.items) == len(b.items) and all(_same_shape(x, y, depth + 1) for x, y in zip(a.items, b.items))
+    if isinstance(a, EnumV):
+        return a.member == b.member
+    return tagof(a) == tagof(b)
+
+
+def run_closure(ctx, rule_id, cases, exceptions=None):
+    """A node constructed by stage i must not be one that a stage j < i would still rewrite: transform() visits every node
+    once per stage, so a node that appears only after stage j ran never gets j's rewrite.  For each wiring case the product
+    of its stage is built, and every earlier stage whose match classes admit one of the product's fresh nodes is
+    interpreted on that node; the node must come back unchanged.  exceptions: {(producer, consumer): reason}."""
+    from .. import pipeline
+
+    prog = ctx.prog
+    exceptions = exceptions or {}
+    st = pipeline.stages(prog)
+    first_index = {}
+    for s in st:
+        first_index.setdefault(s.name, s.index)
+    sg = prog.sqlglot
+    n = 0
+    reported = set()
+    for name, stage, make, expect, why in cases:
+        if stage not in first_index or not prog.has_fn("transforms", stage):
+            continue
+        i = first_index[stage]
+        probe = []
+
+        def run0(I, make=make, stage=stage):
+            inp, ops = make()
+            r = I.call(I.global_lookup("transforms", stage), [inp], {}, None)
+            probe.append((inp, r))
+            return r
+
+        paths0 = explore(prog, lambda: ExecHooks(None), run0, max_paths=64)
+        if not paths0 or paths0[0].outcome != "return" or not isinstance(paths0[0].value, NodeV) or paths0[0].value is probe[0][0]:
+            continue
+        product = paths0[0].value
+        fresh = _fresh_paths(product)
+        for s in st[:i]:
+            if s.fn is None or s.name == stage or (stage, s.name) in exceptions:
+                continue
+            sm = pipeline.summary(prog, s.fn).match
+            for path in fresh:
+                node_ = _at(product, path)
+                if sm and not any(node_.cls and sg.issub(node_.cls, mc) for mc in sm):
+                    continue
+                res = []
+
+                def run1(I, make=make, stage=stage, s=s, path=path):
+                    inp, ops = make()
+                    r = I.call(I.global_lookup("transforms", stage), [inp], {}, None)
+                    tgt = _at(r, path)
+                    mark = len(I.effects)
+                    kw = {k: Sym(f"stagearg:{k}", typ="str", truthy=True) for k in s.kwargs if not k.startswith("#")}
+                    out = I.call(I.global_lookup("transforms", s.name), [tgt], kw, None)
+                    res.append((tgt, out, [e for e in I.effects[mark:] if e[0] in ("nodeset", "nodereplace") and e[1] is tgt]))
+                    return out
+
+                try:
+                    ps = explore(prog, lambda: ExecHooks(None), run1, max_paths=16)
+                except Exception:  # noqa: BLE001  (a stage that cannot be interpreted on this fragment gives no verdict)
+                    continue
+                if not ps or not res:
+                    continue
+                p, (tgt, out, eff) = ps[0], res[0]
+                n += 1
+                changed = p.outcome == "return" and ((out is not tgt and not _same_shape(out, tgt)) or bool(eff))
+                loc = prog.mod("transforms").loc(prog.fn("transforms", stage))
+                ctx.ob(rule_id, f"{stage} (stage {i}) builds {node_.cls}: the earlier stage {s.name} (stage {s.index}) has nothing left to do on it",
+                       not changed, loc, "" if not changed else f"{s.name} would rewrite it to `{tagof(out)}`")
+                if changed and (stage, s.name) not in reported:
+                    reported.add((stage, s.name))
+                    ctx.violation(rule_id, "cursor", "FakeSnowflakeCursor._transform", f"{stage} after {s.name}", "fakesnow/cursor.py",
+                                  f"stage `{stage}` (position {i}) constructs a {node_.cls} node (case: {name}) that the earlier stage `{s.name}` "
+                                  f"(position {s.index}) would rewrite to `{tagof(out)[:60]}`; each stage visits the tree once, so the new node never "
+                                  f"gets that rewrite — `{s.name}` must run after `{stage}` (or the product must already be in final form)")
+    return n
